@@ -46,11 +46,75 @@ func c06Index(tabs []*unicode.RangeTable, t *unicode.RangeTable) int {
 	panic("class table not in the expected order list")
 }
 
-// c06Obs computes the observation code of a rune from the library's own lookup functions.
+// independent class assignment: every per-class table painted range by range into one array per family (first table of
+// the order list wins), without the lookup functions, their bisection or their prefilter tables.
+var c06Paint [3][]uint8
+
+func c06Painted() *[3][]uint8 {
+	if c06Paint[0] != nil {
+		return &c06Paint
+	}
+	paint := func(order []*unicode.RangeTable, def uint8) []uint8 {
+		a := make([]uint8, 0x110000)
+		for i := range a {
+			a[i] = def
+		}
+		for i := len(order) - 1; i >= 0; i-- {
+			t := order[i]
+			if t == nil {
+				continue
+			}
+			for _, x := range t.R16 {
+				for c := uint32(x.Lo); c <= uint32(x.Hi); c += uint32(x.Stride) {
+					a[c] = uint8(i)
+				}
+			}
+			for _, x := range t.R32 {
+				for c := x.Lo; c <= x.Hi && c < 0x110000; c += x.Stride {
+					a[c] = uint8(i)
+				}
+			}
+		}
+		return a
+	}
+	c06Paint[0] = paint(c06LineOrder, uint8(c06Index(c06LineOrder, ucd.BreakXX)))
+	c06Paint[1] = paint(c06GraphemeOrder, 0)
+	c06Paint[2] = paint(c06WordOrder, 0)
+	return &c06Paint
+}
+
+// c06LookupDisagrees: the class the lookup functions return for r differs from the per-class tables themselves
+func c06LookupDisagrees(r rune) string {
+	if r < 0 || r > 0x10FFFF {
+		return ""
+	}
+	p := c06Painted()
+	if lb := c06Index(c06LineOrder, ucd.LookupLineBreakClass(r)); lb != int(p[0][r]) {
+		return fmt.Sprintf("LookupLineBreakClass(U+%04X) returns class #%d of the order list, the per-class tables say #%d", r, lb, p[0][r])
+	}
+	if gb := c06Index(c06GraphemeOrder, ucd.LookupGraphemeBreakClass(r)); gb != int(p[1][r]) {
+		return fmt.Sprintf("LookupGraphemeBreakClass(U+%04X) returns class #%d of the order list (0 = nil), the per-class tables say #%d", r, gb, p[1][r])
+	}
+	if wb := c06Index(c06WordOrder, ucd.LookupWordBreakClass(r)); wb != int(p[2][r]) {
+		return fmt.Sprintf("LookupWordBreakClass(U+%04X) returns class #%d of the order list (0 = nil), the per-class tables say #%d", r, wb, p[2][r])
+	}
+	return ""
+}
+
+var c06Disagree []rune // code points on which the lookups disagree with the class tables (found while computing the representatives)
+
+// c06Obs computes the observation code of a rune: the three classes from the per-class tables themselves (painted, see
+// above; the lookup functions are compared with them on every code point), the rest as the segmenter reads it.
 func c06Obs(r rune) int64 {
-	lb := c06Index(c06LineOrder, ucd.LookupLineBreakClass(r))
-	gb := c06Index(c06GraphemeOrder, ucd.LookupGraphemeBreakClass(r))
-	wb := c06Index(c06WordOrder, ucd.LookupWordBreakClass(r))
+	var lb, gb, wb int
+	if r >= 0 && r <= 0x10FFFF {
+		p := c06Painted()
+		lb, gb, wb = int(p[0][r]), int(p[1][r]), int(p[2][r])
+	} else {
+		lb = c06Index(c06LineOrder, ucd.LookupLineBreakClass(r))
+		gb = c06Index(c06GraphemeOrder, ucd.LookupGraphemeBreakClass(r))
+		wb = c06Index(c06WordOrder, ucd.LookupWordBreakClass(r))
+	}
 	ty := ucd.LookupType(r)
 	f := 0
 	set := func(bit int, b bool) {
@@ -86,6 +150,9 @@ func c06Representatives() []rune {
 		c := c06Obs(r)
 		if _, ok := seen[c]; !ok {
 			seen[c] = r
+		}
+		if len(c06Disagree) < 24 && c06LookupDisagrees(r) != "" {
+			c06Disagree = append(c06Disagree, r)
 		}
 	}
 	for _, r := range seen {
@@ -177,6 +244,14 @@ var c06Focus = [][]rune{
 func c06Gen(r *vh.Rand, tier string, n int, emit func(any)) {
 	reps := c06Representatives()
 	emit(c06Input{Text: nil})
+	// code points whose looked-up class differs from the class tables, alone and between letters / digits / marks
+	for _, x := range c06Disagree {
+		emit(c06Input{Text: []rune{x}})
+		for _, c := range [][2]rune{{'a', 'a'}, {0x05D0, 0x05D0}, {'1', '1'}, {' ', 'a'}, {'a', 0x0301}, {0x1F1E6, 0x1F1E6}, {0x200D, 0x1F600}} {
+			emit(c06Input{Text: []rune{c[0], x, c[1]}})
+			emit(c06Input{Text: []rune{c[0], c[0], x, c[1], c[1]}})
+		}
+	}
 	// exhaustive: all strings of length 1 and 2 over the class representatives
 	for _, a := range reps {
 		emit(c06Input{Text: []rune{a}})
@@ -367,5 +442,11 @@ func c06Run(o *vh.Out, inAny any) {
 	idx := o.Add(in, coq, key, lenClass, fmt.Sprintf("history=%d", len(in.History)))
 	if panicked != nil {
 		o.Fail(idx, "panic", fmt.Sprint(panicked))
+	}
+	for _, r := range in.Text {
+		if msg := c06LookupDisagrees(r); msg != "" {
+			o.Fail(idx, "class-lookup", msg)
+			break
+		}
 	}
 }
